@@ -21,6 +21,7 @@ func checkC04(w *World, r *Report, tier string) propMeta {
 	c04R3(w, r)
 	c04R4(w, r)
 	c02R4(w, r, "C04.R5")
+	c02R7(w, r, "C04.R6") // prefiltering never rewrites stored block lists: a later prefilter would not reach a block whose metadata satisfies it
 	return propMeta{
 		explanation: fmt.Sprintf("(R1) kind-exhaustive numeric classification: the functions reachable from ConvertToMinMaxInt64/ConvertToInt64 dispatch on reflect.Kind for every integer, unsigned and float kind with a non-rejecting branch, so values of named numeric types are indexed (the repaired defect D1). (R2) order-domain abstract interpretation: EvaluateMinMaxCondition touches its numeric inputs only through comparisons, so it is interpreted over every total preorder of {⊥=MinInt64, Min, Max, ⊤=MaxInt64, operands, the row's true value v (allowed beyond the int64 range)} consistent with how ranges are built (Min ≤ clamp(v) ≤ Max); whenever v satisfies the operator the function must return true — %d (operator, ordering) cases, exhaustive for that domain; the same engine checks EvaluateStringCondition and EvaluateNumericCondition equal the operator's meaning, UpdateMinMaxIndex = (min, max) and clampUint64ToInt64 = min(v, ⊤). (R3) every overflow-capable conversion to int64 in the minmax call tree is dominated by range guards, NaN is rejected before Floor/Ceil/Round, Min receives Floor and Max receives Ceil. (R4) wiring: merged ranges are unions (C11.R3), ingest wiring (C18.R5), bucketing by key set (C12.R2). (R5) the strict prefilter table and And/Or combination (C02.R4).", nOrders),
 		notDecided:  "clampFloatToInt64's float boundary arithmetic at 2^63 beyond the presence and direction of its guards; float rounding of values above 2^53.",
